@@ -81,7 +81,13 @@ def _run_chunk(binary, lines, env=None, restart_on=3, stall_s=None):
     out = []
     i = 0
     stall_s = stall_s or float(os.environ.get("VERIF_STALL_S", "45"))
+    slow = 0
     while i < len(lines):
+        if slow >= int(os.environ.get("VERIF_MAX_SLOW", "3")):
+            # three cases of this chunk ran into the time cap already: the rest is not run (inconclusive); the
+            # capped cases themselves are reported
+            out.extend(["SKIPPED (three earlier cases of this chunk hit the time cap)"] * (len(lines) - i))
+            break
         data = "\n".join(lines[i:]) + "\n"
         p = subprocess.Popen([binary], stdin=subprocess.PIPE, stdout=subprocess.PIPE, stderr=subprocess.PIPE,
                              text=True, env=env)
@@ -116,9 +122,11 @@ def _run_chunk(binary, lines, env=None, restart_on=3, stall_s=None):
         p.wait()
         out.extend(got)
         i += len(got)
+        slow += sum(1 for r in got if r.startswith("TIMEOUT"))
         if i >= len(lines):
             break
         if stalled:
+            slow += 1
             out.append("fuel-exhausted (stalled: no reply within %ds)" % int(stall_s))
             i += 1
         elif p.returncode == restart_on:
